@@ -192,7 +192,7 @@ type onlyReader struct{ r io.Reader }
 
 func (o onlyReader) Read(p []byte) (int, error) { return o.r.Read(p) }
 
-const opTimeout = 10 * time.Second
+const opTimeout = 60 * time.Second // long enough for half a million one-block goroutine hand-offs on a loaded machine
 
 // timed runs f under a watchdog: a call that does not return is reported as HANG.
 // spareBuf returns scratch[:n] of a long-lived buffer whose capacity exceeds every block size; the
